@@ -659,6 +659,23 @@ func c03test(used map[string]bool, mu *sync.Mutex) func(vs []gen.Variant) (strin
 		if m4 != nil && irwalk.Digest(m3) != irwalk.Digest(m4) {
 			return "reparse-structure-differs", "re-parsed constructed module is not structurally identical", "", got
 		}
+		// the same construction program over types built the way API users build them: predeclared
+		// leaves (types.I8, ...) and types.New* constructors.
+		if m5, e5, p5 := parseTry(x); e5 == "" && p5 == "" {
+			var got5 string
+			if p := fw.Try(func() {
+				c03retype(m5)
+				got5 = c03clone(m5, map[string]bool{}).String()
+			}); p != "" {
+				return "constructor-panics/predeclared-types@" + fw.PanicSiteOf(p), "constructing the module over predeclared types panics", p, ""
+			}
+			if bad := c03predeclaredIntact(); bad != "" {
+				return "predeclared-type-modified", "constructing a module modified a predeclared type of package types: " + bad, bad, got5
+			}
+			if got5 != want {
+				return "constructed-differs/predeclared-types", "the module re-constructed over the predeclared types of package types (types.I8, types.NewPointer(...), ...) prints differently from the module it was derived from", firstDiff(want, got5), got5
+			}
+		}
 		return "", "", "", ""
 	}
 }
